@@ -159,6 +159,8 @@ def run(ctx):
     ctx.inst("C16.R3", "grammar#number-alternatives", alts == ["binary_number", "hex_number", "decimal_number"], "number = %s" % alts, "blots-core/src/grammar.pest")
     builder = core.hir_fn("blots_core::expressions::pairs_to_expr_inner")["body"]
     from rules.c10 import closure_of, rule_match
+    import rules.c10 as _c10
+    _c10.CRATE[0] = core
     mprim = rule_match(closure_of(builder, "map_primary"))
     num_arm = None
     for a in mprim["arms"]:
@@ -204,6 +206,35 @@ def run(ctx):
         prefixes = {H.lit(n["args"][0])["v"] for n in H.walk(cond) if H.kind(n) == "MethodCall" and n["name"] == "starts_with" and H.lit(n["args"][0])}
         radices = [int(H.lit(n["args"][1])["v"]) for n in H.walk(then) if H.kind(n) == "Call" and (n.get("def") or "").endswith("from_str_radix") and H.lit(n["args"][1])]
         rad = radices[0] if len(radices) == 1 else None
+        if rad is None or not prefixes:
+            # the prefixes / radices may live in a named table of (prefix, sign, radix, ..) rows
+            rows_ = []
+            for x in H.walk(num_arm["body"]):
+                if H.kind(x) == "Path" and x.get("res", {}).get("dk") in ("Const", "Static") and x["res"].get("def") in core.statics:
+                    for tup in H.walk(core.statics[x["res"]["def"]]["body"]):
+                        if H.kind(tup) == "Tup":
+                            pre_ = [H.lit(e_)["v"] for e_ in tup["es"] if H.lit(e_) and H.lit(e_)["lk"] == "str"]
+                            ints_ = [int(H.lit(e_)["v"]) for e_ in tup["es"] if H.lit(e_) and H.lit(e_)["lk"] == "int"]
+                            sg_ = []
+                            for e_ in tup["es"]:
+                                e0_ = H.strip(e_)
+                                if H.kind(e0_) == "Unary" and e0_["op"] == "Neg" and H.lit(e0_["e"]) and H.lit(e0_["e"])["lk"] == "float":
+                                    sg_.append(-float(H.lit(e0_["e"])["v"]))
+                                elif H.lit(e0_) and H.lit(e0_)["lk"] == "float":
+                                    sg_.append(float(H.lit(e0_)["v"]))
+                            if pre_ and ints_:
+                                rows_.append((pre_[0], ints_[0], sg_[0] if sg_ else None))
+            if rows_:
+                for rad_ in sorted({r_[1] for r_ in rows_}):
+                    pf_ = {r_[0] for r_ in rows_ if r_[1] == rad_}
+                    ctx.inst("C16.R3", "builder#radix-%s" % rad_, rad_ in want and pf_ == want[rad_], "table rows give prefixes %s for radix %s; grammar admits %s" % (sorted(pf_), rad_, sorted(want.get(rad_, []))), H.loc(then))
+                    sg_ok = all(r_[2] == (-1.0 if r_[0].startswith("-") else 1.0) for r_ in rows_ if r_[1] == rad_)
+                    ctx.inst("C16.R3", "builder#radix-%s#sign" % rad_, sg_ok, "sign column of the table: %s" % [(r_[0], r_[2]) for r_ in rows_ if r_[1] == rad_], H.loc(then))
+                    repl_ = [n for n in H.walk(then) if H.kind(n) == "MethodCall" and n["name"] == "replace" and H.lit(n["args"][0]) and H.lit(n["args"][0])["v"] == "_"]
+                    ctx.inst("C16.R3", "builder#radix-%s#underscores" % rad_, bool(repl_), "underscores removed before conversion: %s" % bool(repl_), H.loc(then))
+            else:
+                ctx.inst("C16.R3", "builder#radix-branch", None, "a non-decimal branch whose prefixes / radix could not be read (prefixes %s, radix %s)" % (sorted(prefixes), rad), H.loc(then))
+            continue
         ok = rad in want and prefixes == want[rad]
         ctx.inst("C16.R3", "builder#radix-%s" % rad, ok, "branch tests prefixes %s, converts with radix %s; grammar admits %s" % (sorted(prefixes), rad, sorted(want.get(rad, []))), H.loc(then))
         # sign table: strip_prefix("-..") -> -1.0, otherwise 1.0
